@@ -9,6 +9,7 @@ import (
 	"errors"
 	"fmt"
 	"regexp"
+	"runtime"
 	"sort"
 	"strings"
 	"sync"
@@ -33,6 +34,7 @@ type Real struct {
 	Panicked bool
 	PanicSig string
 	PanicVal string
+	Unsettled bool   // script goroutines were still running when the trace was read
 	Overflow bool    // the event budget was exceeded (runaway)
 	TimedOut bool    // the execution watchdog fired
 	CPUBurn  float64 // process CPU seconds consumed by this execution when it timed out
@@ -125,6 +127,14 @@ func (r *Recorder) Bind(e *env.Env) {
 		r.mu.Unlock()
 		return k
 	})
+	e.Define("hg", func(rest ...interface{}) {
+		if rest == nil {
+			rest = []interface{}{}
+		}
+		r.mu.Lock()
+		r.gtrace = append(r.gtrace, "hg "+ank.Render(rest))
+		r.mu.Unlock()
+	})
 	e.Define("gdone", func() { r.done <- struct{}{} })
 	e.Define("gwait", func(n interface{}) {
 		cnt, _ := n.(int64)
@@ -178,6 +188,23 @@ func finish(o ank.Out, rec *Recorder, ctx context.Context) Real {
 	return real
 }
 
+// waitGoroutines is a completion barrier for script goroutines (their bodies are
+// a few host calls): it waits until the goroutine count is back to base.
+// Not reaching it is inconclusive, never a violation.
+func waitGoroutines(base int) bool {
+	for i := 0; i < 4000; i++ {
+		if runtime.NumGoroutine() <= base {
+			return true
+		}
+		if i < 50 {
+			runtime.Gosched()
+		} else {
+			time.Sleep(500 * time.Microsecond)
+		}
+	}
+	return false
+}
+
 func cpuSeconds() float64 {
 	var ru syscall.Rusage
 	syscall.Getrusage(syscall.RUSAGE_SELF, &ru)
@@ -195,7 +222,11 @@ func Run(src string) Real {
 	defer cancel()
 	rec.cancel = cancel
 	c0 := cpuSeconds()
-	real := finish(ank.ExecCtx(ctx, e, src), rec, ctx)
+	base := runtime.NumGoroutine()
+	o := ank.ExecCtx(ctx, e, src)
+	settled := waitGoroutines(base)
+	real := finish(o, rec, ctx)
+	real.Unsettled = !settled
 	if real.TimedOut {
 		real.CPUBurn = cpuSeconds() - c0
 	}
@@ -209,7 +240,11 @@ func RunTree(stmt ast.Stmt) Real {
 	defer cancel()
 	rec.cancel = cancel
 	c0 := cpuSeconds()
-	real := finish(ank.RunCtx(ctx, e, stmt), rec, ctx)
+	base := runtime.NumGoroutine()
+	o := ank.RunCtx(ctx, e, stmt)
+	settled := waitGoroutines(base)
+	real := finish(o, rec, ctx)
+	real.Unsettled = !settled
 	if real.TimedOut {
 		real.CPUBurn = cpuSeconds() - c0
 	}
@@ -350,6 +385,9 @@ func Judge(prog []gen.Stmt, real Real) Verdict {
 		}
 		return Verdict{Kind: "inconclusive", Detail: "execution watchdog"}
 	}
+	if real.Unsettled {
+		return Verdict{Kind: "inconclusive", Detail: "script goroutines still running"}
+	}
 	if real.Panicked {
 		return Verdict{Kind: "violation", Sig: real.PanicSig, Detail: "panic escaped: " + real.PanicVal}
 	}
@@ -374,14 +412,22 @@ func Judge(prog []gen.Stmt, real Real) Verdict {
 	if sawUnspec != "" {
 		return Verdict{Kind: "excluded", Detail: sawUnspec}
 	}
-	for bits := 0; bits < 16; bits++ {
-		fl := refmodel.Flags{LoopPerIter: bits&1 != 0, TrySeparate: bits&2 != 0, FinallyOnAbrupt: bits&4 != 0, DeferErrLast: bits&8 != 0, TryCatchesControl: true}
-		m := refmodel.Run(prog, fl)
-		if m.Unspec != "" || !m.UsedFinding {
-			continue
-		}
-		if ok, _ := admits(m, real); ok {
-			return Verdict{Kind: "finding", Finding: "try-catches-control-signals", Variant: fmt.Sprintf("%+v", fl)}
+	// listed findings: each finding flag alone, then both together
+	type fset struct {
+		name     string
+		try, zps bool
+	}
+	for _, fs := range []fset{{"try-catches-control-signals", true, false}, {"zero-param-spread-ignores-operands", false, true}, {"try-catches-control-signals+zero-param-spread-ignores-operands", true, true}} {
+		for bits := 0; bits < 16; bits++ {
+			fl := refmodel.Flags{LoopPerIter: bits&1 != 0, TrySeparate: bits&2 != 0, FinallyOnAbrupt: bits&4 != 0, DeferErrLast: bits&8 != 0,
+				TryCatchesControl: fs.try, ZeroParamSpread: fs.zps}
+			m := refmodel.Run(prog, fl)
+			if m.Unspec != "" || !m.UsedFinding {
+				continue
+			}
+			if ok, _ := admits(m, real); ok {
+				return Verdict{Kind: "finding", Finding: fs.name, Variant: fmt.Sprintf("%+v", fl)}
+			}
 		}
 	}
 	// signature: kind of divergence + the kinds of the two events involved
